@@ -11,7 +11,8 @@ def setup(seed):
     grid = emg3d.TensorMesh([hx, hx, hx], origin=(-200, -200, -400))
     models = [emg3d.Model(grid, rng.uniform(0.5, 3.0, grid.shape_cells)), emg3d.Model(grid, rng.uniform(0.5, 3.0, grid.shape_cells))]
     src = {'TxED-1': emg3d.TxElectricDipole((-55.0, 10.0, -160.0, 20, 5))}
-    rec = {'RxEP-1': emg3d.RxElectricPoint((45.0, 15.0, -150.0, 0, 0)), 'RxEP-2': emg3d.RxElectricPoint((70.0, -35.0, -170.0, 30, 10))}
+    # (names deliberately NOT in alphabetical order: results are tied to names, not to positions)
+    rec = {'RxEP-2': emg3d.RxElectricPoint((45.0, 15.0, -150.0, 0, 0)), 'RxEP-1': emg3d.RxElectricPoint((70.0, -35.0, -170.0, 30, 10))}
     survey = emg3d.Survey(sources=src, receivers=rec, frequencies=[1.0, 2.5], noise_floor=1e-14, relative_error=0.05)
     true = emg3d.Model(grid, rng.uniform(0.5, 3.0, grid.shape_cells))
     s0 = new_sim(survey, true)
@@ -37,7 +38,7 @@ def reference(survey, model):
 
 
 OPS = ['compute', 'misfit', 'gradient', 'jtvec', 'get_efield', 'get_hfield', 'clean_computed', 'clean_keepresults', 'clean_all', 'copy',
-       'dict', 'model_update']
+       'dict', 'model_update', 'file_h5']
 
 
 def apply(sim, op, state, rng):
@@ -62,6 +63,17 @@ def apply(sim, op, state, rng):
         sim = sim.copy(what=['computed', 'all', 'results', 'plain'][int(rng.integers(4))])
     elif op == 'dict':
         sim = emg3d.Simulation.from_dict(sim.to_dict(what='computed', copy=True))
+    elif op == 'file_h5':
+        import os
+        import tempfile
+        td = tempfile.mkdtemp(prefix='c12_')
+        try:
+            fn = os.path.join(td, 'sim.h5')
+            sim.to_file(fn, what='computed', verb=0)
+            sim = emg3d.Simulation.from_file(fn, verb=0)
+        finally:
+            import shutil
+            shutil.rmtree(td, ignore_errors=True)
     elif op == 'model_update':
         state['m'] = 1 - state['m']
         sim.model = state['models'][state['m']]
@@ -74,7 +86,7 @@ def check(tier='quick', seed=0):
     refs = [reference(survey, m) for m in models]
     rng = np.random.default_rng(seed + 17)
     nseq, maxlen = (14, 5) if tier == 'quick' else (80, 8)
-    fixed = [['get_efield', 'misfit', 'gradient'], ['misfit', 'jtvec', 'gradient'], ['gradient', 'clean_computed', 'compute'], ['misfit', 'clean_keepresults', 'gradient'],
+    fixed = [['compute', 'file_h5', 'gradient'], ['misfit', 'file_h5', 'clean_computed', 'misfit'], ['get_efield', 'misfit', 'gradient'], ['misfit', 'jtvec', 'gradient'], ['gradient', 'clean_computed', 'compute'], ['misfit', 'clean_keepresults', 'gradient'],
              ['gradient', 'model_update', 'compute'], ['gradient', 'copy', 'model_update'], ['compute', 'misfit', 'gradient', 'clean_computed', 'get_efield']]
     cases = 0
     for k in range(nseq):
